@@ -88,7 +88,6 @@ func headerFields(fa *FuncAn, buf string) map[string]string {
 	return out
 }
 
-
 var encRe = regexp.MustCompile(`^(BE|LE)(\d+)\((.*)\)$`)
 var byteListRe = regexp.MustCompile(`^\[(\d+(, \d+)*)\]$`)
 
